@@ -10,12 +10,12 @@ def K(harness, **kw):
     return dict(kind='kani', harness=harness, **kw)
 
 PROPS = {
-    'C01': dict(level='proof', steps=[V('writer')],
+    'C01': dict(level='proof', steps=[V('writer'), E3('c01-roundtrip'), E3('c01-bytepairs'), E3('c01-reals', complete_in_thorough=True), E3('c01-roundtrip', no_default_features=True)],
                 title='Save then load returns the same document',
                 technique='Verus contracts on mechanically extracted writer functions (spec encodings from ISO 32000-1 7.3)',
                 text='writer side: every lexical writer function emits exactly the ISO encoding of its argument (unbounded, Verus).',
                 note='std fmt/itoa shims trusted; reader side (nom) not under contract'),
-    'C03': dict(level='proof', steps=[V('writer')],
+    'C03': dict(level='proof', steps=[V('writer'), E3('c03-strict')],
                 title='Saved files are valid PDF for a strict third-party reader',
                 technique='Verus contracts on mechanically extracted writer functions',
                 text='byte-exact layout contract of the writer functions (Verus).',
@@ -25,12 +25,18 @@ PROPS = {
                 technique='Verus contracts on mechanically extracted writer functions',
                 text='encoder side under contract (Verus).',
                 note='nom parser side not under contract'),
-    'C19': dict(level='proof', steps=[V('writer')],
+    'C19': dict(level='proof', steps=[V('writer'), E3('c19-sinks')],
                 title='Saving reports sink failures and ignores sink chunking',
                 technique='Verus capacity-sink contract wrote(old,new,ok,enc) on every writer function',
                 text='for every failure offset: Ok iff everything fitted, delivered bytes are a prefix of the complete output (Verus).',
                 note='std Write::write_all/write_fmt contract assumed'),
 }
+
+PROPS['C09'] = dict(level='proof', steps=[V('png')],
+                title='Stream filters decode as specified; compression is lossless',
+                technique='Verus contracts on extracted PNG predictor code against PNG 9.2 reconstruction functions',
+                text='PNG predictor decoding (decode_row, decode_frame, paeth_predict) equals the PNG definition for every input (Verus).',
+                note='flate2/weezl assumed; allocation within the granted bound assumed to succeed')
 
 NOT_APPLICABLE = {
     'C18': "every clause is about what chrono/jiff/time format and parse; the crate's own code is two string edits, so no contract within either verifier's reach expresses the property",
